@@ -23,8 +23,14 @@ KF_C03c(step) ==
   LET bad == {i \in 1..Len(step.reres) : ~C03cEntry(step.reres[i])} IN
   IF bad # {} /\ \A i \in bad : ShadowEntry(step, step.reres[i]) THEN "KF-C03-shadow" ELSE ""
 
+(* KF-C05-settime-replace: ProvActivity.set_time assigns the new value without  *)
+(* the single-value guard, so a different existing start/end time is replaced   *)
+(* silently instead of being refused.                                           *)
+KF_C05_refuse(step) == IF step.op.op = "SetTime" THEN "KF-C05-settime-replace" ELSE ""
+
 KnownFinding(step, c) ==
   CASE c = "C03c" -> KF_C03c(step)
+    [] c = "C05_refuse" -> KF_C05_refuse(step)
     [] OTHER -> ""
 
 =============================================================================
